@@ -237,7 +237,21 @@ def extract(F, c):
             char_loops[s] = cl
             visit_block(cl['body'], stack + [s])
             return
-        lp = loop_parts(e, cx) if e['k'] == 'Match' else None
+        try:
+            lp = loop_parts(e, cx) if e['k'] == 'Match' else None
+        except UUndec as u:
+            # a loop over something else: keep reading; whatever is emitted inside it is judged (and rejected) individually
+            sc = strip(e['scrutinee'])
+            s = sym_for('opaque#0')
+            cx.ranges[s] = None
+            cx.opaque[s] = pp(sc['args'][0])[:80]
+            for m in walk(e):
+                if m['k'] == 'Match' and m is not e:
+                    for a in m['arms']:
+                        p = unwrap_pat(a['pat'])
+                        if p['k'] == 'Variant' and p['variant'] == 'Some': visit_block(a['body'], stack + [s])
+                    break
+            return
         if lp is not None:
             var, rg, lbody = lp
             s = sym_for(var)
@@ -272,6 +286,7 @@ def extract(F, c):
     texts = []
     char_loops = {}
     cx.char_loops = char_loops
+    cx.opaque = {}
     visit_block(body, [])
     return cx, emissions, hints, filters, texts, size_defs
 
@@ -298,6 +313,8 @@ def rule_sudoku(F, R):
     fam = {}
     for k, em in enumerate(emissions):
         try:
+            for sy in em['stack']:
+                if cx.ranges.get(sy) is None: raise UUndec('the list is emitted inside a loop over %s, which is not a numeric range' % cx.opaque.get(sy, '?'))
             kind = classify(F, c, em, cx)
         except UUndec as u:
             R.obligation(False, 'U em %d' % k)
@@ -316,8 +333,10 @@ def rule_sudoku(F, R):
     if okh:
         h = hints[0]
         st = h['stack']
-        okh = len(st) == 1 and cx.ranges[st[0]][0] == {} and cx.ranges[st[0]][1] in (NC, pmul(pmul(ROOT, ROOT), pmul(ROOT, ROOT)), pmul(SQ, SQ))
+        okh = len(st) == 1 and cx.ranges[st[0]] is not None and cx.ranges[st[0]][0] == {} and cx.ranges[st[0]][1] in (NC, pmul(pmul(ROOT, ROOT), pmul(ROOT, ROOT)), pmul(SQ, SQ))
         why = 'hints must be read for every cell index 0..numcells'
+        if len(st) == 1 and cx.ranges[st[0]] is None:
+            why = 'the hint loop runs over %s: cell i must be the i-th *character* of the whitespace-filtered text, for i in 0..numcells' % cx.opaque.get(st[0], '?')
         if okh:
             a0 = root_var(h['args'][0]) if h['args'] else None
             loopvar = [v for v, s in cx.names.items() if s == st[0]]
